@@ -186,7 +186,10 @@ class Sim:
                 self.ai.close()
         except Exception:
             pass
-        kernel.drop_scratch(self.dir)
+        if self.has_ext and "ropesim-fixed" in self.dir:
+            kernel.drop_fixed(self.dir)
+        else:
+            kernel.drop_scratch(self.dir)
 
     # -- query battery --------------------------------------------------------
     def battery(self, project, ai, which=None, idents=()):
